@@ -559,17 +559,26 @@ def insertBeforeFirstSpread (props : List Node) (entry : Node) : List Node :=
   | [] => [entry]
   | p :: rest => if isSpreadProp p then entry :: p :: rest else p :: insertBeforeFirstSpread rest entry
 
+/-- `can_inject_define_component_option(call, name)` -/
+def canInjectOption (call : Node) (name : String) : Bool :=
+  match call with
+  | .mk .call _ [_, .mk .list _ args, _] =>
+    let isSpreadArg (a : Node) : Bool := match a with | .mk .spreadArg _ _ => true | _ => false
+    if (args.take 2).any isSpreadArg then false else
+    match (args[1]? : Option Node) with
+    | some (.mk .arg _ [.mk .object _ [.mk .list _ props]]) => !props.any (isOptionNamed · name)
+    | _ => true
+  | _ => false
+
 /-- `inject_define_component_option(call, name, value)` -/
 def injectOption (call : Node) (name : String) (value : Node) : Node :=
+  if !canInjectOption call name then call else
   match call with
   | .mk .call as [callee, .mk .list las args, ta] =>
     let entry := nKV (nIdentName name) value
-    let isSpreadArg (a : Node) : Bool := match a with | .mk .spreadArg _ _ => true | _ => false
-    if (args.take 2).any isSpreadArg then call else
     match (args[1]? : Option Node) with
     | some (.mk .arg _ [.mk .object oas [.mk .list pas props]]) =>
-      if props.any (isOptionNamed · name) then call
-      else .mk .call as [callee, .mk .list las (args.take 1 ++ [nArg (.mk .object oas [.mk .list pas (insertBeforeFirstSpread props entry)])] ++ args.drop 2), ta]
+      .mk .call as [callee, .mk .list las (args.take 1 ++ [nArg (.mk .object oas [.mk .list pas (insertBeforeFirstSpread props entry)])] ++ args.drop 2), ta]
     | some (.mk .arg _ [e]) =>
       .mk .call as [callee, .mk .list las (args.take 1 ++ [nArg (nObject [entry, nSpreadElement e])] ++ args.drop 2), ta]
     | some _ => call
@@ -582,8 +591,8 @@ def callHook (o : Opts) (env : Env) (call : Node) (st : St) : Node × St :=
   if !isDefineComponentCall st call then (call, st) else
   match call with
   | .mk .call _ [_, .mk .list _ (first :: _), _] =>
-    let (props, st) := extractPropsType env first st
-    let (emits, st) := extractEmitsType first st
+    let (props, st) := if canInjectOption call "props" then extractPropsType env first st else (none, st)
+    let (emits, st) := if canInjectOption call "emits" then extractEmitsType first st else (none, st)
     let call := match props with | some p => injectOption call "props" p | none => call
     let call := match emits with | some e => injectOption call "emits" e | none => call
     (call, st)
